@@ -33,6 +33,8 @@ def prefilter(case, d):
   key = (id(case), repr(d))
   tables = {t: (semcheck.SCHEMAS['AB'][t], [tuple(r) for r in d.get(t, [])]) for t in ('A', 'B')}
   cols, rows = refsem.Evaluator(rules, tables).rows(case.ordered_pred)
+  if not case.info['order']:
+    return case.info['K'] == 0 or case.info['K'] >= len(rows)     # no order: only 'none' or 'all' is determined
   idx = [cols.index(o.split()[0]) for o in case.info['order']]
   keys = [tuple(r[i] for i in idx) for r in rows]
   return len(set(keys)) == len(keys)
